@@ -91,7 +91,7 @@ let rec from_window now (its : item list) =
   | _ -> false
 
 (* ---------------------------------------------------------------- seq *)
-type fld = FS | FN of z * bool | FU | FL of z | FP of string
+type fld = FS | FN of z * bool | FU | FL of z | FP of string | FW
 
 let render_fields (explicit : bool) (fs : (fld * bool) list) : string =
   let base =
@@ -103,6 +103,7 @@ let render_fields (explicit : bool) (fs : (fld * bool) list) : string =
   String.concat " " (List.map (fun (f, cb) ->
     (match f with
      | FS -> "S"
+     | FW -> "W"
      | FN (t, ok) -> "N" ^ zs (zsub t base) ^ ":" ^ field_of_bool ok
      | FU -> "Nu"
      | FL k -> "L" ^ zs k
@@ -121,12 +122,14 @@ let seq_case (tree : string) (ops : string) (obs : string) : string * string * b
     | Panic k -> "tbl=1 Pctor:" ^ pk k
     | OutOfFuel -> "tbl=1 fuel"
     | Ok s0 ->
-        let rec go s cb ops acc =
+        let rec go ?(now = now) s cb ops acc =
+          let go ?(now = now) = go ~now in
           match ops with
           | [] -> List.rev acc
           | o :: r ->
               let fired c' = int_of_nat c'.cb_calls <> int_of_nat cb.cb_calls in
               (match o with
+               | 'W' -> go ~now:(zadd now past) s cb r ((FW, false) :: acc)   (* the clock jumps past every short window *)
                | 'S' -> (match s_start z0 s with
                          | Ok s' -> go s' cb r ((FS, false) :: acc)
                          | Panic k -> List.rev ((FP (pk k), false) :: acc)
@@ -151,12 +154,14 @@ let seq_case (tree : string) (ops : string) (obs : string) : string * string * b
   (* ----- specification: the abstract token stream of the configuration *)
   let spec =
     let fl = flatten_cfg c in
-    let rec go (a : astate) cb ops acc =
+    let rec go ?(now = now) (a : astate) cb ops acc =
+      let go ?(now = now) = go ~now in
       match ops with
       | [] -> List.rev acc
       | o :: r ->
           let fired c' = int_of_nat c'.cb_calls <> int_of_nat cb.cb_calls in
           (match o with
+           | 'W' -> go ~now:(zadd now past) a cb r ((FW, false) :: acc)
            | 'S' -> if a.a_started then List.rev ((FP "started", false) :: acc)
                     else go (a_start z0 a) cb r ((FS, false) :: acc)
            | 'N' ->
